@@ -150,10 +150,10 @@ structure State where
   -- shared atomics and mutex-protected cells
   rdrop : Bool := false               -- receiver_dropped
   swSlot : Option Nat := none         -- sync_recv_waiter (thread; its flag is `notif`)
-  swLock : Option Nat := none
+  swLock : Option (Option Nat) := none  -- holder: `some (some h)` sender handle h, `some none` the receiver
   swCnt : Nat := 0
   awSlot : Option Waker := none       -- async_recv_waiter
-  awLock : Option Nat := none
+  awLock : Option (Option Nat) := none
   awCnt : Nat := 0
   shard : Nat → Nat := fun _ => 0     -- sent_shards
   shardCur : Nat := 0
@@ -198,6 +198,10 @@ structure State where
   -- ghost
   taken : List Nat := []
   drained : List Nat := []
+  gLinker : Nat := 0                  -- last handle that executed the link store of `publish`
+  gCloser : Nat := 0                  -- last handle whose `drop_sender` took `sender_count` to 0
+  gTaker : Nat := 0                   -- last handle that took the sync waiter out of its slot
+  gTakerA : Nat := 0                  -- … the async waiter
 
 def init : State :=
   { ch := ChainB.init, shardCur := 1, sshard := fun _ => 0 }
@@ -353,7 +357,8 @@ def stepS_chain (cfg : Cfg) (s : State) (h : Nat) : Option State :=
   match pNext cfg s.ch h with
   | some l =>
     (ChainB.step cfg.chain s.ch h l).map (fun c =>
-      { s with ch := c, spc := upd s.spc h (if c.ppc h = .idle then .rec_ else .chain) })
+      { s with ch := c, gLinker := if c.ppc h = .idle then h else s.gLinker,
+               spc := upd s.spc h (if c.ppc h = .idle then .rec_ else .chain) })
   | none => none
 
 def stepS_rec (cfg : Cfg) (s : State) (h : Nat) : Option State :=
@@ -363,11 +368,12 @@ def stepS_rec (cfg : Cfg) (s : State) (h : Nat) : Option State :=
 def stepS_nLoadS (s : State) (h : Nat) : Option State :=
   some { s with spc := upd s.spc h (if s.swCnt ≠ 0 then .nLockS else .nLoadA) }
 
-def stepS_nLockS (s : State) (h t : Nat) : Option State :=
+def stepS_nLockS (s : State) (h : Nat) : Option State :=
   match s.swLock with
   | none =>
     -- `g.take()` is folded into the lock step
-    some { s with swLock := some t, swSlot := none, swk := upd s.swk h s.swSlot,
+    some { s with swLock := some (some h), swSlot := none, swk := upd s.swk h s.swSlot,
+                  gTaker := if s.swSlot.isSome then h else s.gTaker,
                   spc := upd s.spc h (if s.swSlot.isSome then .nCntS else .nUnlockS) }
   | some _ => none
 
@@ -382,10 +388,11 @@ def stepS_nUnparkS (s : State) (h : Nat) : Option State :=
 def stepS_nLoadA (s : State) (h : Nat) : Option State :=
   some { s with spc := upd s.spc h (if s.awCnt ≠ 0 then .nLockA else .done) }
 
-def stepS_nLockA (s : State) (h t : Nat) : Option State :=
+def stepS_nLockA (s : State) (h : Nat) : Option State :=
   match s.awLock with
   | none =>
-    some { s with awLock := some t, awSlot := none, sawk := upd s.sawk h s.awSlot,
+    some { s with awLock := some (some h), awSlot := none, sawk := upd s.sawk h s.awSlot,
+                  gTakerA := if s.awSlot.isSome then h else s.gTakerA,
                   spc := upd s.spc h (if s.awSlot.isSome then .nCntA else .nUnlockA) }
   | some _ => none
 
@@ -418,14 +425,16 @@ def stepS_closeChain (cfg : Cfg) (s : State) (h : Nat) : Option State :=
       let s1 := { s with ch := c }
       if c.ppc h = .idle then
         -- that was `sender_count.fetch_sub`; `== 1` ⇒ wake_all_receivers
-        some { s1 with spc := upd s.spc h (if s.ch.senders = 1 then .wLockS else .afterClose) }
+        some { s1 with gCloser := if s.ch.senders = 1 then h else s.gCloser,
+                       spc := upd s.spc h (if s.ch.senders = 1 then .wLockS else .afterClose) }
       else some s1)
   | none => none
 
-def stepS_wLockS (s : State) (h t : Nat) : Option State :=
+def stepS_wLockS (s : State) (h : Nat) : Option State :=
   match s.swLock with
   | none =>
-    some { s with swLock := some t, swSlot := none, swk := upd s.swk h s.swSlot,
+    some { s with swLock := some (some h), swSlot := none, swk := upd s.swk h s.swSlot,
+                  gTaker := if s.swSlot.isSome then h else s.gTaker,
                   spc := upd s.spc h (if s.swSlot.isSome then .wCntS else .wUnlockS) }
   | some _ => none
 
@@ -434,10 +443,11 @@ def stepS_wUnparkS (s : State) (h : Nat) : Option State :=
   | some w => some { s with token := upd s.token w true, swk := upd s.swk h none, spc := upd s.spc h .wUnlockS }
   | none => none
 
-def stepS_wLockA (s : State) (h t : Nat) : Option State :=
+def stepS_wLockA (s : State) (h : Nat) : Option State :=
   match s.awLock with
   | none =>
-    some { s with awLock := some t, awSlot := none, sawk := upd s.sawk h s.awSlot,
+    some { s with awLock := some (some h), awSlot := none, sawk := upd s.sawk h s.awSlot,
+                  gTakerA := if s.awSlot.isSome then h else s.gTakerA,
                   spc := upd s.spc h (if s.awSlot.isSome then .wCntA else .wUnlockA) }
   | some _ => none
 
@@ -449,7 +459,7 @@ def stepS_fin (cfg : Cfg) (s : State) (h : Nat) : Option State :=
       else { s with ch := c })
   | none => none
 
-def stepS (cfg : Cfg) (s : State) (t h : Nat) : Option State :=
+def stepS (cfg : Cfg) (s : State) (h : Nat) : Option State :=
   match s.spc h with
   | .idle => none
   | .done => none
@@ -458,24 +468,24 @@ def stepS (cfg : Cfg) (s : State) (t h : Nat) : Option State :=
   | .rec_ => stepS_rec cfg s h
   | .nFence => some { s with spc := upd s.spc h .nLoadS }
   | .nLoadS => stepS_nLoadS s h
-  | .nLockS => stepS_nLockS s h t
+  | .nLockS => stepS_nLockS s h
   | .nCntS => some { s with swCnt := 0, spc := upd s.spc h .nFlagS }
   | .nFlagS => some { s with notif := true, spc := upd s.spc h .nUnlockS }
   | .nUnlockS => stepS_nUnlockS s h
   | .nUnparkS => stepS_nUnparkS s h
   | .nLoadA => stepS_nLoadA s h
-  | .nLockA => stepS_nLockA s h t
+  | .nLockA => stepS_nLockA s h
   | .nCntA => some { s with awCnt := 0, spc := upd s.spc h .nUnlockA }
   | .nUnlockA => stepS_nUnlockA s h
   | .nWakeA => stepS_wakeA s h .nUnparkA .done
   | .nUnparkA => stepS_unparkA s h .done
   | .closeChain => stepS_closeChain cfg s h
-  | .wLockS => stepS_wLockS s h t
+  | .wLockS => stepS_wLockS s h
   | .wCntS => some { s with swCnt := 0, spc := upd s.spc h .wFlagS }
   | .wFlagS => some { s with notif := true, spc := upd s.spc h .wUnparkS }
   | .wUnparkS => stepS_wUnparkS s h
   | .wUnlockS => some { s with swLock := none, spc := upd s.spc h .wLockA }
-  | .wLockA => stepS_wLockA s h t
+  | .wLockA => stepS_wLockA s h
   | .wCntA => some { s with awCnt := 0, spc := upd s.spc h .wWakeA }
   | .wWakeA => stepS_wakeA s h .wUnparkA .wUnlockA
   | .wUnparkA => stepS_unparkA s h .wUnlockA
@@ -600,7 +610,7 @@ def stepR_fin (cfg : Cfg) (s : State) : Option State :=
       if c.cpc = .finished then { s with ch := c, rres := .unit, rpc := .done } else { s with ch := c })
   | none => none
 
-def stepR (cfg : Cfg) (s : State) (t : Nat) : Option State :=
+def stepR (cfg : Cfg) (s : State) : Option State :=
   match s.rpc with
   | .idle => none
   | .done => none
@@ -609,20 +619,20 @@ def stepR (cfg : Cfg) (s : State) (t : Nat) : Option State :=
   | .inPop => stepR_inPop cfg s
   | .cons => stepR_cons s
   | .senders => stepR_senders s
-  | .gLockS => match s.swLock with | none => some { s with swLock := some t, rpc := .gUnlockS } | some _ => none
-  | .gUnlockS => some { s with swLock := none, swSlot := some t, rpc := .gCntS }
+  | .gLockS => match s.swLock with | none => some { s with swLock := some none, rpc := .gUnlockS } | some _ => none
+  | .gUnlockS => some { s with swLock := none, swSlot := some s.rthr, rpc := .gCntS }
   | .gCntS => some { s with swCnt := 1, rpc := .gFence }
   | .gFence => some (rTry { s with rreg := true } .blk 0)
-  | .uLockS => match s.swLock with | none => some { s with swLock := some t, rpc := .uUnlockS } | some _ => none
+  | .uLockS => match s.swLock with | none => some { s with swLock := some none, rpc := .uUnlockS } | some _ => none
   | .uUnlockS => some { s with swLock := none, swSlot := none, rpc := .uCntS }
   | .uCntS => some { s with swCnt := 0, rreg := false, rpc := .done }
   | .park => stepR_park s .swapFlag
   | .swapFlag => stepR_swapFlag s
-  | .gLockA => match s.awLock with | none => some { s with awLock := some t, rpc := .gUnlockA } | some _ => none
+  | .gLockA => match s.awLock with | none => some { s with awLock := some none, rpc := .gUnlockA } | some _ => none
   | .gUnlockA => some { s with awLock := none, awSlot := some s.rwaker, rpc := .gCntA }
   | .gCntA => some { s with awCnt := 1, rpc := .gFenceA }
   | .gFenceA => some (rTry { s with rreg := true } .pollPost (if s.rsingle then 2 else 0))
-  | .uLockA => match s.awLock with | none => some { s with awLock := some t, rpc := .uUnlockA } | some _ => none
+  | .uLockA => match s.awLock with | none => some { s with awLock := some none, rpc := .uUnlockA } | some _ => none
   | .uUnlockA => some { s with awLock := none, awSlot := none, rpc := .uCntA }
   | .uCntA => stepR_uCntA s
   | .execPark => stepR_park { s with rform := .pollPre } .closedLoad
@@ -643,8 +653,8 @@ def stepR (cfg : Cfg) (s : State) (t : Nat) : Option State :=
 def stepAdv (cfg : Cfg) (s : State) (t : Nat) : Option State :=
   match s.tpc t with
   | .idle => none
-  | .onS h => if s.sthr h = t then stepS cfg s t h else none
-  | .onR => if s.rthr = t then stepR cfg s t else none
+  | .onS h => if s.sthr h = t then stepS cfg s h else none
+  | .onR => if s.rthr = t then stepR cfg s else none
 
 def step (cfg : Cfg) (s : State) (t : Nat) : Label → Option State
   | .callS h op => stepCallS cfg s t h op
